@@ -6,6 +6,7 @@ of Measurement.as_base_types is a scheduling point.
 """
 import threading
 
+from vf import common
 from vf import htf
 from vf.ref import render
 from vf.sched import explore, runtime
@@ -147,6 +148,7 @@ def check(ex):
 
 
 def run_into(rep, tier):
+  explore.set_plan(common.thorough_budget(tier), 2)
   bound = 1 if tier == 'quick' else 2
   r = explore.explore('C10:S', execute, check, bound, cap=60000 if tier == 'quick' else 400000)
   rep.merge_violations(r['violations'])
